@@ -38,6 +38,9 @@ var gvcAPIScenarios = []gvcAPIScenario{
 	{"elision-across-list-kinds", "@@\n@@\n-foo(...)\n+bar(func(...) {})\n", "package a\n\nfunc g() { foo(1, 2) }\n", true},
 	{"array-length-elision-on-plus-line", "@@\nvar x expression\n@@\n-foo(x)\n+[...]int{x}\n", "package a\n\nvar _ = foo(1)\n", true},
 	{"line-directive-in-target", "@@\n@@\n bar()\n-foo()\n-foo()\n", "package x\n\n//line gen.y:1000\nfunc f() {\n\tbar()\n\tfoo()\n\tfoo()\n\tbaz()\n}\n", true},
+	{"identifier-metavariable-against-an-absent-label", "@@\nvar x identifier\n@@\n-break x\n+foo(x)\n", "package x\n\nfunc f() {\n\tfor {\n\t\tbreak\n\t}\n}\n", false},
+	{"expression-metavariable-against-an-absent-bound", "@@\nvar s, x expression\n@@\n-s[1:x]\n+f(x)\n", "package x\n\nvar _ = t[1:]\n", false},
+	{"elision-of-a-whole-assignment-side", "@@\n@@\n-x, ... = foo()\n+... = foo()\n", "package x\n\nfunc f() {\n\tx = foo()\n}\n", true},
 	{"elision-both-sides", "@@\n@@\n func f() {\n   ...\n-  foo()\n+  bar()\n+  baz()\n   ...\n }\n", "package a\n\nfunc f() {\n\ta()\n\tfoo()\n\tb()\n\tc()\n}\n", true},
 }
 
